@@ -45,13 +45,14 @@ type Sched struct {
 	inflight map[uint64]string // gid -> the point it was released from ("call:<name>" for a fresh call)
 	events   []Event
 	Quiet    time.Duration
-	counts   map[string]int // arrivals per point name (also in pass-through mode)
-	pending  int            // registered calls that have not returned
-	activity uint64         // bumped on every arrival / return
-	Steps    int            // releases so far
-	coreGid  uint64         // the goroutine that last reached a core:* point (the core loop)
-	judge    bool           // a request is in progress: accesses to loop-owned state are judged
-	Foreign  []string       // "own:*" points reached, while judged, by a goroutine other than the core loop
+	counts   map[string]int             // arrivals per point name (also in pass-through mode)
+	pending  int                        // registered calls that have not returned
+	activity uint64                     // bumped on every arrival / return
+	Steps    int                        // releases so far
+	coreGid  uint64                     // the goroutine that last reached a core:* point (the core loop)
+	judge    bool                       // a request is in progress: accesses to loop-owned state are judged
+	passed   map[uint64]map[string]bool // which points each goroutine has reached
+	Foreign  []string                   // "own:*" points reached, while judged, by a goroutine other than the core loop
 }
 
 // New creates a scheduler that parks goroutines at the named points.
@@ -96,6 +97,13 @@ func (s *Sched) Hook(name string) {
 		return
 	}
 	g := goid()
+	if s.passed == nil {
+		s.passed = map[uint64]map[string]bool{}
+	}
+	if s.passed[g] == nil {
+		s.passed[g] = map[string]bool{}
+	}
+	s.passed[g][name] = true
 	delete(s.inflight, g)
 	w := &waiter{name: name, gid: g, ch: make(chan struct{})}
 	s.parked = append(s.parked, w)
@@ -130,6 +138,14 @@ func (s *Sched) Go(call string, f func() string) {
 		s.mu.Unlock()
 	}()
 	<-started
+}
+
+// Passed tells whether the calling goroutine has reached the named point.
+func (s *Sched) Passed(name string) bool {
+	g := goid()
+	s.mu.Lock()
+	defer s.mu.Unlock()
+	return s.passed[g][name]
 }
 
 // SetJudge switches the judging of accesses to loop-owned state on or off.
